@@ -2,7 +2,7 @@
 From Coq Require Import ZArith QArith List Bool String.
 Import ListNotations.
 From MxlBase Require Import ListX.
-From SbmlExp Require Import SbmlMath SbmlId SbmlDoc GenSbmlFacts.
+From SbmlExp Require Import SbmlMath SbmlId SbmlIdU SbmlDoc GenSbmlFacts.
 
 Definition math_case := (fundef * list N * result ml)%type.
 Definition math_mismatches (cases : list math_case) : list nat :=
@@ -65,3 +65,11 @@ Definition nameref_mismatches (cases : list nameref_case) : list nat :=
              | RRuleVariable => rule_variable s
              | RDeclared => convert_id prefix s
              end) exp) end) cases.
+
+(** ids of names with arbitrary code points: (prefix, name, non-ASCII code points of the name that Python's `\w` matches,
+    those for which str.isalpha holds, what _convert_id_to_sbml returned) -- all as code point lists; the model runs on the
+    REGENERATED character class [gen_escape] *)
+Definition idu_case := (list N * list N * list N * list N * result (list N))%type.
+Definition idu_mismatches (cases : list idu_case) : list nat :=
+  filter_idx (fun c => match c with (prefix, name, words, alphas, exp) =>
+    negb (res_eqb listN_eqb (convert_id_u (memN words) (memN alphas) gen_escape prefix name) exp) end) cases.
